@@ -84,7 +84,7 @@ func newMPSys(cfg drv.Config, u *mpUniverse, prop string) (*mpSys, error) {
 
 func (s *mpSys) Close() { s.w.Close() }
 func (s *mpSys) Key() string {
-	return drv.KeyOf(s.w.Snapshot(drv.SnapOpts{Uploads: true}) + fmt.Sprintf("inits=%d", min(s.inits, 1)))
+	return drv.KeyOf(s.w.Snapshot(drv.SnapOpts{Uploads: true, Versions: s.w.Cfg.Kind == drv.Mem}) + fmt.Sprintf("inits=%d", min(s.inits, 1)))
 }
 
 func min(a, b int) int {
@@ -132,17 +132,34 @@ func (s *mpSys) completeLists(u *model.MUpload) []mpOp {
 			add(mk(sub), "")
 		}
 	}
-	if len(ns) >= 2 {
+	if len(ns) >= 2 && len(ns) <= 3 {
+		// every out-of-order permutation
+		var perm func(cur []int, rest []int)
+		perm = func(cur []int, rest []int) {
+			if len(rest) == 0 {
+				sorted := true
+				for i := 1; i < len(cur); i++ {
+					if cur[i] < cur[i-1] {
+						sorted = false
+					}
+				}
+				if !sorted {
+					add(mk(append([]int{}, cur...)), " out-of-order")
+				}
+				return
+			}
+			for i := range rest {
+				nr := append(append([]int{}, rest[:i]...), rest[i+1:]...)
+				perm(append(cur, rest[i]), nr)
+			}
+		}
+		perm(nil, ns)
+	} else if len(ns) > 3 {
 		rev := make([]int, len(ns))
 		for i, n := range ns {
 			rev[len(ns)-1-i] = n
 		}
 		add(mk(rev), " out-of-order")
-		if len(ns) >= 3 {
-			sw := append([]int{}, ns...)
-			sw[0], sw[1] = sw[1], sw[0]
-			add(mk(sw), " out-of-order")
-		}
 	}
 	for _, miss := range []int{0, -1, 3, 10001} {
 		if u.Parts[miss] != nil {
@@ -395,11 +412,11 @@ func (s *mpSys) Check() ([]*engine.Violation, int64) {
 
 func mpPlans(c *engine.Ctx) ([]drv.Config, *mpUniverse, int) {
 	u := &mpUniverse{keys: []string{"a", "b/c"}, partNums: []int{1, 2, 5}, bodies: []string{"a", "bb"}, maxOpen: 2, maxInit: 3, maxParts: 3}
-	depth := 4
+	depth := 5
 	kinds := []drv.Kind{drv.Mem, drv.Bolt, drv.MultiMem, drv.SingleMem}
 	if !quick(c) {
 		u = &mpUniverse{keys: []string{"a", "b/c", "b/d"}, partNums: []int{1, 2, 5, 10000}, bodies: []string{"a", "bb", "ccc"}, maxOpen: 3, maxInit: 4, maxParts: 3}
-		depth = 5
+		depth = 6
 		kinds = append(kinds, drv.MultiDir, drv.SingleDir)
 	}
 	var cfgs []drv.Config
@@ -414,7 +431,7 @@ func runMP(c *engine.Ctx, prop string) {
 	for i, cfg := range cfgs {
 		cfg := cfg
 		d := depth
-		if i > 0 && !quick(c) {
+		if i > 0 {
 			d = depth - 1 // the uploader is backend independent; the first world goes deepest
 		}
 		name := prop + "/" + worldName(cfg)
